@@ -482,4 +482,65 @@ Section StoreP.
     destruct (N.ltb_spec h n); [lia|]. destruct (N.ltb_spec W (h - n)); [lia|].
     destruct (n =? h); discriminate.
   Qed.
+
+  (* ---------- commit points are unobservable (C03) ---------- *)
+
+  Definition is_commit (o : sop) : bool := match o with SCommit => true | _ => false end.
+  Definition is_clear (o : sop) : bool := match o with SClear => true | _ => false end.
+
+  (* The current values never depend on where commits were placed, as long as nothing is
+     discarded: erasing the commits from a trace without clears leaves [fst] of the
+     functional specification unchanged. *)
+  Theorem commit_placement_irrelevant ops : forall F F',
+    (forall k m, fst F k m = fst F' k m) ->
+    forallb (fun o => negb (is_clear o)) ops = true ->
+    forall k m, fst (fs_run F ops) k m
+                = fst (fs_run F' (filter (fun o => negb (is_commit o)) ops)) k m.
+  Proof.
+    induction ops as [|o r IH]; intros F F' HF Hnc k m; [apply HF|].
+    cbn [forallb] in Hnc. apply andb_prop in Hnc as [Hc Hr].
+    unfold fs_run in *. cbn [fold_left filter].
+    destruct F as [cur sav], F' as [cur' sav']. cbn [fst] in HF.
+    destruct o as [b k0 v|w n v|n| | |n]; cbn [is_commit negb fold_left fs_step] in *; try discriminate.
+    - apply IH; [|assumption]. intros k1 m1. cbn [fst]. unfold upd.
+      destruct (k0 =? k1); [|apply HF]. unfold s_set. destruct (b <=? m1); [reflexivity|apply HF].
+    - apply IH; [|assumption]. intros k1 m1. cbn [fst]. apply HF.
+    - apply IH; [|assumption]. intros k1 m1. cbn [fst]. apply HF.
+    - apply IH; [|assumption]. intros k1 m1. cbn [fst]. apply HF.
+    - apply IH; [|assumption]. intros k1 m1. cbn [fst]. unfold s_reorg. apply HF.
+  Qed.
+
+  (* A commit changes no point read, no range scan and no block row. *)
+  Theorem commit_unobservable s F st st' s' :
+    SInv s F st -> wf_step W st SCommit = Some st' -> sto_step W s SCommit = Ok s' ->
+    (forall k, t_latest (st_t s') k = t_latest (st_t s) k) /\
+    (forall lo hi, t_get_range (st_t s') lo hi = t_get_range (st_t s) lo hi).
+  Proof.
+    intros I Hwf Hs. pose proof (SInv_step s F st _ st' s' I Hwf Hs) as I'.
+    assert (Hd : w_dirty st = false).
+    { cbn [wf_step] in Hwf. destruct (w_dirty st); [discriminate|reflexivity]. }
+    assert (Hb : bound st = w_m st).
+    { unfold bound, dstamp. rewrite (si_clean _ _ _ I Hd), Hd. lia. }
+    assert (Hb' : bound st' = w_m st).
+    { cbn [wf_step] in Hwf. rewrite Hd in Hwf. injection Hwf as <-. unfold bound, dstamp. cbn. lia. }
+    assert (Hl : forall k, t_latest (st_t s') k = t_latest (st_t s) k).
+    { intros k. rewrite (store_point_read s' _ st' k (w_m st) I' ltac:(lia)).
+      rewrite (store_point_read s _ st k (w_m st) I ltac:(lia)).
+      destruct F as [cur sav]. reflexivity. }
+    split; [exact Hl|]. intros lo hi.
+    destruct (si_t _ _ _ I) as (c1 & c2 & TR & _). destruct (si_t _ _ _ I') as (c1' & c2' & TR' & _).
+    apply (get_range_determined_by_latest W _ _ _ _ lo hi TR' TR).
+    intros k. unfold latest_or_none. rewrite Hl. reflexivity.
+  Qed.
+
+  (* clearCaches / a restart without commit: exactly the state of the last commit. *)
+  Theorem clear_is_last_commit s F st st' s' k m :
+    SInv s F st -> wf_step W st SClear = Some st' -> sto_step W s SClear = Ok s' ->
+    w_m st <= m -> t_latest (st_t s') k = Ok (snd F k m).
+  Proof.
+    intros I Hwf Hs Hm. pose proof (SInv_step s F st _ st' s' I Hwf Hs) as I'.
+    assert (Hb' : bound st' = w_m st).
+    { cbn [wf_step] in Hwf. injection Hwf as <-. unfold bound, dstamp. cbn. lia. }
+    rewrite (store_point_read s' _ st' k m I' ltac:(lia)). destruct F as [cur sav]. reflexivity.
+  Qed.
 End StoreP.
